@@ -185,3 +185,31 @@ package wire
 //@   assert at call (*github.com/miekg/dns.Msg).Pack#3: arg0 == msg && (!lastret("internal/wire.selectOPT", 1) || lastret("internal/wire.selectOPT") == nil)
 //@   assert at call (*github.com/miekg/dns.Msg).Pack#4: arg0 != msg && lastret("internal/wire.selectOPT", 1) && lastret("internal/wire.selectOPT") != nil
 //@   assert at return: calls("(*github.com/miekg/dns.Msg).Pack") == 1
+//@
+//@ # a message is compressible exactly when the library says so: more than one question or any record
+//@ func msgIsCompressible
+//@   requires msg != nil
+//@   modifies nothing
+//@   ensures result == (len(msg.Question) > 1 || len(msg.Answer) > 0 || len(msg.Ns) > 0 || len(msg.Extra) > 0)
+//@
+//@ # one question on the wire: the name through the library's packer, then type and class big-endian right after it
+//@ func packQuestion
+//@   abstract
+//@   nosafety all pre
+//@   assert at call github.com/miekg/dns.PackDomainName#1: arg0 == q.Name && arg1 == out && arg2 == entry_off && arg3 == compression && arg4 == compress
+//@   assert at call (encoding/binary.bigEndian).PutUint16#1: arg2 == q.Qtype && region(arg1) == region(out) && offset(arg1) == offset(out) + lastret("github.com/miekg/dns.PackDomainName") && lastret("github.com/miekg/dns.PackDomainName") + 4 <= len(out)
+//@   assert at call (encoding/binary.bigEndian).PutUint16#2: arg2 == q.Qclass && region(arg1) == region(out) && offset(arg1) == offset(out) + lastret("github.com/miekg/dns.PackDomainName") + 2
+//@   assert at return#3: result1 == nil && result0 == lastret("github.com/miekg/dns.PackDomainName") + 4
+//@   assert at return#1: result1 != nil
+//@
+//@ # PackClone returns bytes the caller owns: an exact-size copy of what the pooled packer produced, or of the immutable
+//@ # library fallback when the pooled packer declined
+//@ func PackClone
+//@   abstract
+//@   nosafety all pre
+//@   assert at call internal/wire.libraryPackImmutable#1: !lastret("internal/wire.TryPack") && arg0 == msg
+//@   assert at copy#1: len(dst) == len(src) && src == lastret("internal/wire.libraryPackImmutable")
+//@ func PackClone$1
+//@   abstract
+//@   nosafety all pre
+//@   assert at copy#1: len(dst) == len(body) && src == body
